@@ -436,6 +436,74 @@ func (fr *Frame) applyContract(ins ssa.Instruction, fn *ssa.Function, c *Contrac
 	return res
 }
 
+// assignLoc is one location set named by an assigns clause.
+type assignLoc struct {
+	cell  bool
+	addr  string
+	t     types.Type // cell: type at addr
+	lo    string     // range [lo, hi) of slots
+	hi    string
+	elemT types.Type
+}
+
+// assignLocs evaluates assigns clauses (in state old) to location sets.
+func (fr *Frame) assignLocs(assigns []Clause, scope map[string]*Val, old *State) (locs []assignLoc, allHeap bool, ghosts []string) {
+	vc := fr.vc
+	for _, a := range assigns {
+		n := a.Expr
+		if n.Kind == "ident" && n.Name == "$heap" {
+			allHeap = true
+			continue
+		}
+		if n.Kind == "ident" && len(n.Name) > 0 && n.Name[0] == '$' {
+			ghosts = append(ghosts, n.Name)
+			continue
+		}
+		env := &evalEnv{fr: fr, scope: scope, st: old, old: old, bound: map[string]string{}}
+		func() {
+			defer func() {
+				if r := recover(); r != nil {
+					if e, isE := r.(evalError); isE {
+						vc.unsupported(fr, "assigns: "+e.msg+" in `"+a.Src+"`")
+						return
+					}
+					panic(r)
+				}
+			}()
+			vc.specDepth++
+			saveReach, saveSt := fr.reach, fr.st
+			defer func() { vc.specDepth--; fr.reach, fr.st = saveReach, saveSt }()
+			if n.Kind == "call" && n.Args[0].Kind == "ident" && n.Args[0].Name == "elems" {
+				x := env.eval(n.Args[1])
+				et := elemOf(x.T)
+				locs = append(locs, assignLoc{lo: x.L[0], hi: add(x.L[0], mul(x.L[1], intLit(int64(slots(et))))), elemT: et})
+				return
+			}
+			if n.Kind == "slice" {
+				x := env.eval(n.Args[0])
+				lo, hi := "0", x.L[1]
+				if n.Args[1] != nil {
+					lo = env.intOf(env.eval(n.Args[1]))
+				}
+				if n.Args[2] != nil {
+					hi = env.intOf(env.eval(n.Args[2]))
+				}
+				lo = ite(lt(lo, "0"), "0", lo)
+				hi = ite(gt(hi, x.L[1]), x.L[1], hi)
+				et := elemOf(x.T)
+				es := intLit(int64(slots(et)))
+				lo = vc.define("alo", "Int", add(x.L[0], mul(lo, es)))
+				hi = vc.define("ahi", "Int", add(x.L[0], mul(hi, es)))
+				locs = append(locs, assignLoc{lo: lo, hi: hi, elemT: et})
+				return
+			}
+			addr, t := env.addrOf(n)
+			locs = append(locs, assignLoc{cell: true, addr: addr, t: t})
+		}()
+	}
+	return
+}
+
 // havocAssigns havocs the locations named by assigns clauses (evaluated in
 // the pre-state).
 func (fr *Frame) havocAssigns(assigns []Clause, scope map[string]*Val, old *State) {
@@ -451,7 +519,8 @@ func (fr *Frame) havocAssigns(assigns []Clause, scope map[string]*Val, old *Stat
 			for _, k := range keys {
 				old := vc.arr(fr.st, leafByKey[k])
 				fr.st.heap[k] = vc.fresh(k, "(Array Int "+leafByKey[k].Sort+")")
-				vc.staticFrame(fr.st.heap[k], old)
+				vc.logStore(k, "unknown!999999999", "")
+				vc.staticFrame(k, fr.st.heap[k], old)
 			}
 			for _, g := range []string{"$alloc", "$elems"} {
 				fr.st.ghost[g] = vc.fresh("g_"+sanitize(g), "Int")
@@ -519,9 +588,13 @@ func (fr *Frame) havocAssigns(assigns []Clause, scope map[string]*Val, old *Stat
 				done[l.Key] = true
 				rememberLeaf(l)
 				oldArr := vc.arr(fr.st, l)
+				vc.logStore(l.Key, lo, sub(hi, lo))
 				nw := vc.fresh(l.Key, "(Array Int "+l.Sort+")")
-				vc.assume(fmt.Sprintf("(forall ((a Int)) (! (=> (not (and (<= %s a) (< a %s))) (= (select %s a) (select %s a))) :pattern ((select %s a))))",
-					lo, hi, nw, oldArr, nw))
+				lo2, hi2 := lo, hi
+				vc.addAxiom(l.Key, fmt.Sprintf("(forall ((a Int)) (! (=> (not (and (<= %s a) (< a %s))) (= (select %s a) (select %s a))) :pattern ((select %s a))))",
+					lo, hi, nw, oldArr, nw), func(idx string) (string, []string) {
+					return imp(not(and(le(lo2, idx), lt(idx, hi2))), eq(sel(nw, idx), sel(oldArr, idx))), nil
+				})
 				fr.st.heap[l.Key] = nw
 			}
 			continue
@@ -530,6 +603,7 @@ func (fr *Frame) havocAssigns(assigns []Clause, scope map[string]*Val, old *Stat
 			rememberLeaf(l)
 			a := add(addr, intLit(int64(l.Slot)))
 			v := vc.fresh(fr.prefix+"_hv", l.Sort)
+			vc.logStore(l.Key, a, "")
 			vc.setArr(fr.st, l, store(vc.arr(fr.st, l), a, v))
 		}
 		// type invariants of the havoced cell
